@@ -88,9 +88,13 @@ func (f *atomicFile) Commit() error {
 	if err := f.File.Close(); err != nil {
 		return err
 	}
-	// rename can't overwrite on windows
-	if err := os.Remove(f.name); err != nil && !os.IsNotExist(err) {
-		return err
+	// Rename replaces the destination atomically. Removing it first would
+	// leave a window (or, if the rename then fails, a final state) with no
+	// file at all, so only do that where rename cannot overwrite.
+	if runtime.GOOS == "windows" {
+		if err := os.Remove(f.name); err != nil && !os.IsNotExist(err) {
+			return err
+		}
 	}
 	if err := os.Rename(f.File.Name(), f.name); err != nil {
 		return err
